@@ -198,8 +198,10 @@ def gen_resource(rng, g, d):
         r = {"Type": "AWS::S3::Bucket", "Properties": props}
     else:
         props = {}
-        for key in rng.sample(["TopicName", "Items", "Nested", "Enabled", "Count", "Opt"], rng.randint(0, 4)):
-            if key == "Items":
+        for key in rng.sample(["TopicName", "Items", "Nested", "Enabled", "Count", "Opt", "Unsupported"], rng.randint(0, 4)):
+            if key == "Unsupported":
+                props[key] = g.unsupported(max(d, 1))
+            elif key == "Items":
                 props[key] = g.l(d)
             elif key == "Nested":
                 props[key] = {"A": g.s(d), "B": [g.s(d)], "C": {"D": g.s(d)}}
